@@ -137,6 +137,14 @@ def prove(hyps, goal: T, use_cvc5="fallback", timeout_ms=None) -> Result:
     smt, vs = build_smt2(hyps, goal)
     if use_cvc5 == "never":
         return z3_check(smt, vs, timeout_ms)
+    if use_cvc5 == "first":
+        # queries known to be quick for cvc5 and slow for z3 (nonlinear integer case analyses): cvc5, then the usual stages
+        r0 = cvc5_check(smt, vs)
+        if r0.status != "unknown":
+            return r0
+        r = prove(hyps, goal, use_cvc5="never", timeout_ms=timeout_ms)
+        r.time_s += r0.time_s
+        return r
     # staged: z3 short, cvc5, z3 long (a slow query on one solver is usually fast on the other)
     r = z3_check(smt, vs, min(Z3_FIRST_MS, timeout_ms or Z3_TIMEOUT_MS))
     if r.status == "unknown":
